@@ -8,7 +8,7 @@ from .. import batcher_drv as D
 from .. import batcher_gen as G
 
 PROP = 'C10'
-READY = False
+READY = True
 PROPS_MODULE = 'C10'
 MODEL_TARGETS = ['theories/Case_C10.vo']
 HEADER = ('From Coq Require Import List NArith. Import ListNotations.\n'
@@ -34,7 +34,7 @@ ALLOWED_AXIOMS = []
 LEVEL_NOTE = ('trusted: Coq kernel + vm_compute; asyncio primitives (Queue, wait_for, FIFO Semaphore, shield, Future '
     'done-callbacks, call_later, task wake-up order) are modelled in Batcher.v and validated only by the '
     'correspondence runs; harness/vloop.py, harness/batcher_drv.py, coq/theories/Case_Batcher.v (agree + monitors).  '
-    'Monitor soundness is proved only for the simple conjuncts (monitor_sound_partial); the other conjuncts are tied '
+    'The state-free conjuncts of the monitors (ok_basic) are proved complete and sound; full-monitor soundness is proved only for simple conjuncts (monitor_sound_partial); the other conjuncts are tied '
     'to the theorems through agree (model trace = observed trace) on every case')
 TECHNIQUE = D.TECHNIQUE
 
@@ -146,8 +146,12 @@ LEVEL_TEXT = ('On the macro-step model of AsyncBackgroundBatcher (coq/theories/B
     'share_until_full — a call joins the open batch, which is handed over the moment it reaches the limit; '
     "dispatch_deadline — the open batch's deadline is last arrival + batch_timeout and never passes, every batch is "
     'spawned at its last arrival if that filled it and exactly batch_timeout later otherwise, spawn order = start '
-    'order = batch ids, no start before the spawn; start_at_spawn_or_release — a batch starts in the step it was '
-    'spawned or in the step that ends another batch; clock_exact — advance never runs out of fuel and the model clock '
-    'is the sum of the Advance events.  Tied to /repo by differential correspondence under the virtual-time loop; the '
-    'monitor ok_C10 judges the observed trace independently of the model (monitor_sound_partial: acceptance implies '
-    'non-empty batches).')
+    'order = batch ids, no start before the spawn; split_only_when_full_or_timed_out — every item of a later batch '
+    '(and of the open batch) arrived at or after the spawn instant of each earlier batch, so calls less than '
+    'batch_timeout apart share a batch until it is full; start_at_spawn_or_release — a batch starts in the step it '
+    'was spawned or in the step that ends another batch; clock_exact — advance never runs out of fuel and the model '
+    'clock is the sum of the Advance events.  Tied to /repo by differential correspondence under the virtual-time '
+    'loop; the monitor ok_C10 judges the observed trace independently of the model (monitor_basic_complete / '
+    'monitor_basic_sound: the state-free conjuncts — no TaskDied, completion clock, no double completion, non-empty '
+    'duplicate-free batches not in the future — accept every model trace for all event lists and imply these facts; '
+    'monitor_sound_partial for the full monitor).')
